@@ -106,6 +106,14 @@ def Manager.updateConnectionID (m : Manager) (draw : Nat) : Manager Ã— List Ev Ã
 
 /-! ### add / Add -/
 
+/-- the early-out of `add`: a reordered / already retired sequence number is answered with RETIRE_CONNECTION_ID at once.
+    Not for the active sequence number; also for the number most recently used for path probing (it is not in
+    `pathProbing` any more at that point, i.e. it was retired). -/
+def Manager.retireNow (m : Manager) (seq : Nat) : Bool :=
+  decide (seq â‰  m.activeSeq) &&
+    (decide (seq < max m.activeSeq m.highestProbing) || (decide (m.highestProbing â‰  0) && decide (seq = m.highestProbing))
+      || decide (seq < m.highestRetired))
+
 def retireProbingEvs (l : List (Nat Ã— Entry)) : List Ev :=
   l.flatMap fun pe => [Ev.retire pe.2.seq, Ev.rmTok pe.2.tok]
 
@@ -113,7 +121,7 @@ def retireProbingEvs (l : List (Nat Ã— Entry)) : List Ev :=
 def Manager.add (m : Manager) (seq rpt : Nat) (id tok : Bytes) (draw : Nat) : Manager Ã— List Ev Ã— Res :=
   if m.activeID = [] then (m, [], .err .protocolViolation)
   else if m.probing.any (fun pe => pe.2.seq == seq) then (m, [], .ok)
-  else if seq < max m.activeSeq m.highestProbing âˆ¨ seq < m.highestRetired then (m, [.retire seq], .ok)
+  else if m.retireNow seq then (m, [.retire seq], .ok)
   else
     -- retire path-probing IDs below Retire Prior To
     let ev1 := retireProbingEvs (m.probing.filter fun pe => pe.2.seq < rpt)
@@ -131,6 +139,14 @@ def Manager.add (m : Manager) (seq rpt : Nat) (id tok : Bytes) (draw : Nat) : Ma
           let r := m3.updateConnectionID draw
           (r.1, ev1 ++ ev2 ++ r.2.1, r.2.2)
         else (m3, ev1 ++ ev2, .ok)
+
+/-- number of path-probing IDs that `add` retires because of Retire Prior To (they come out of a Go map
+    iteration, so the oracle compares that group of callbacks up to order) -/
+def Manager.addProbingRetired (m : Manager) (seq rpt : Nat) : Nat :=
+  if m.activeID = [] then 0
+  else if m.probing.any (fun pe => pe.2.seq == seq) then 0
+  else if m.retireNow seq then 0
+  else (m.probing.filter fun pe => pe.2.seq < rpt).length
 
 /-- `Add` -/
 def Manager.addFrame (m : Manager) (seq rpt : Nat) (id tok : Bytes) (draw : Nat) : Manager Ã— List Ev Ã— Res :=
